@@ -38,6 +38,25 @@ func query(id uint16, name string) []byte {
 	return b
 }
 
+func update(id uint16, op uint16, name string, ip net.IP) []byte {
+	p := &nbtns.NBTNSPacket{Header: nbtns.NBTNSHeader{TransactionID: id, Flags: op | 0x0080, Answers: 1},
+		Answers: []nbtns.NBTNSResourceRecord{{Name: &nbtns.NetBIOSName{Name: name}, Type: 0x20, Class: 1, TTL: 3600, RDLength: 4, RData: ip}}}
+	b, _ := p.Marshal()
+	return b
+}
+
+func udpSend(wg *sync.WaitGroup, addr *net.UDPAddr, req []byte) {
+	defer wg.Done()
+	c, err := net.DialUDP("udp", nil, addr)
+	if err != nil {
+		return
+	}
+	defer c.Close()
+	c.Write(req)
+	c.SetReadDeadline(time.Now().Add(150 * time.Millisecond))
+	c.Read(make([]byte, 4096))
+}
+
 func udpClient(wg *sync.WaitGroup, addr *net.UDPAddr, id uint16, name string) {
 	defer wg.Done()
 	c, err := net.DialUDP("udp", nil, addr)
@@ -95,6 +114,9 @@ func main() {
 			}
 			tbl.RegisterName("NX", nbtns.Unique, net.IP{10, 0, 0, 1}, time.Hour)
 			tbl.RegisterName("NY", nbtns.Unique, net.IP{10, 0, 0, 2}, time.Hour)
+			for k := 1; k <= 24; k++ {
+				tbl.RegisterName("GRP", nbtns.Group, net.IP{10, 0, 1, byte(k)}, time.Hour)
+			}
 			if err := srv.Start(); err != nil {
 				skipped["nbns-"+kind] = err.Error()
 				continue
@@ -106,6 +128,21 @@ func main() {
 				wg.Add(1)
 				go udpClient(&wg, addr, uint16(0x1000+i), []string{"NX", "NY"}[i%2])
 			}
+			// a group whose membership changes while it is being queried
+			for i := 0; i < 9; i++ {
+				wg.Add(1)
+				switch i % 3 {
+				case 0:
+					go udpClient(&wg, addr, uint16(0x1100+i), "GRP")
+				case 1:
+					go udpSend(&wg, addr, update(uint16(0x1100+i), nbtns.OpRelease, "GRP", net.IP{10, 0, 1, byte(1 + i)}))
+				default:
+					go udpSend(&wg, addr, update(uint16(0x1100+i), nbtns.OpRegistration, "GRP", net.IP{10, 0, 2, byte(i)}))
+				}
+			}
+			// and an undecodable datagram
+			wg.Add(1)
+			go udpSend(&wg, addr, []byte{0x12, 0x34, 0x00})
 			if stopEarly {
 				srv.Stop()
 				wg.Wait()
@@ -225,7 +262,11 @@ func main() {
 					}(i)
 				}
 				if stopEarly {
-					cl.Close()
+					// two owners of the client react to the same event
+					for k := 0; k < 2; k++ {
+						wg.Add(1)
+						go func() { defer wg.Done(); cl.Close() }()
+					}
 				}
 				wg.Wait()
 				cl.Close()
